@@ -213,7 +213,7 @@ def print_assumptions(prop_module, names):
         if "Closed under the global context" in txt:
             res[name] = []
         else:
-            ax = re.findall(r"^([A-Za-z_][\w.']*)\s*:", txt, re.M)
+            ax = [a for a in re.findall(r"^([A-Za-z_][\w.']*)\s*:", txt, re.M) if a != "Axioms"]
             # continuation lines of types are indented, axiom names start at col 0
             res[name] = sorted(set(ax))
     return res, out
